@@ -158,7 +158,7 @@ def run_laws(c, o):
         t = u * (t @ u)
     ft = dict(flow, cg=[x + dx for x, dx in zip(fl["cg"], t)])
     span = max(s["mesh"]["span"] for s in surfs)
-    rt = 1e-9 * max(1.0, np.linalg.norm(t) / span)  # cancellation when coordinates are large compared with the wing
+    rt = 1e-8 * max(1.0, np.linalg.norm(t) / span)  # cancellation when coordinates are large compared with the wing (and near-singular pairs in multi-surface cases)
     compare(o, "translate", run(c, scaled_surfaces(surfs, 1.0, t), ft), r0, 1.0, tags, rtol=rt)
     # ---- (d) the same SI values supplied in other units
     un = dict(v="knot", rho="slug/ft**3", alpha="rad", re="1/ft", cg="ft")
